@@ -14,7 +14,7 @@ import (
 type Loaded struct {
 	Prog   *ssa.Program
 	Pkgs   []*packages.Package
-	All    []*ssa.Package // dependency order (deps first)
+	All    []*ssa.Package      // dependency order (deps first)
 	Errors map[string][]string // package path -> type errors
 }
 
